@@ -30,6 +30,7 @@ PROFILE = {
     'colopts': {'rel_names': 0.2},
     'poison': 0.2,
     'more_runs': 0.2,
+    'ref_json': 0.1,
 }
 
 RULE = ('spec = column set (1..40 columns, label anywhere, names optionally containing the relation marker " AND_REL ") with tiny row counts x target-only/pairwise '
